@@ -200,6 +200,18 @@ Restart ==
   /\ open' = FALSE /\ wst' = Empty /\ evlog' = <<>> /\ ntx' = 0
   /\ UNCHANGED engH
 
+\* the engine comes back with an OLDER tip than the one the application has committed (its database was restored from a
+\* backup, or its last writes never reached the disk): the application is k >= 1 blocks ahead, on top of the one block a
+\* crash between the two commits adds; the next start must roll it back block by block to the engine's tip
+CanLose == ~open /\ appH >= 2 /\ appH >= engH /\ engH >= 1
+Lose ==
+  /\ Allowed("lose") /\ CanLose
+  /\ \E k \in 1..2 :
+       /\ engH - k >= 0
+       /\ engH' = engH - k
+       /\ trace' = Append(trace, Rec("lose", <<>>, <<>>, 1, Tip.st, Tip.st, 0, <<>>, engH - k, chain[engH - k + 1].root, appH - (engH - k)))
+  /\ UNCHANGED <<chain, open, wst, evlog, ntx>>
+
 \* block 1 = one successful transaction writing every present cell of p, committed
 PresetScript(p) ==
   LET S == Present(p) IN
@@ -213,7 +225,7 @@ Preset ==
        /\ trace' = trace \o <<r, Rec("commit", <<>>, <<>>, 1, Tip.st, r.st, 1, <<>>, 1, Tree(r.st), 0)>>
   /\ UNCHANGED <<open, wst, evlog, ntx>>
 
-Next == Tx \/ Commit \/ Crash \/ Revert \/ Restart \/ Preset
+Next == Tx \/ Commit \/ Crash \/ Revert \/ Restart \/ Lose \/ Preset
 Spec == Init /\ [][Next]_vars
 
 (* ------------------------------ properties ------------------------------ *)
@@ -244,9 +256,9 @@ RootFunctionOfState ==
 RevertInverse ==
   /\ (Len(trace) > 0 /\ Last.op \in {"revert", "restart"}) => Last.st = Tip.st /\ Last.root = Tip.root /\ Last.h = appH
   /\ \A i \in 2..Len(chain) : SS!DiffSound(AsSet(chain[i - 1].st), AsSet(chain[i].st))
-\* the application is never behind the engine nor more than one block ahead; after recovery they agree
+\* the application is never behind the engine nor more than three blocks ahead (one by a crash, two by a lost engine tip); after recovery they agree
 Heights ==
-  /\ engH <= appH /\ appH <= engH + 1 /\ appH <= MaxHeight
+  /\ engH <= appH /\ appH <= engH + 3 /\ appH <= MaxHeight
   /\ (Len(trace) > 0 /\ Last.op = "restart") => appH = engH
   /\ (appH > engH) => ~open
 
@@ -258,6 +270,7 @@ Stuck ==
                \/ "revert" \in P.k /\ CanRevert
                \/ "restart" \in P.k /\ CanRestart
                \/ "recover" \in P.k /\ CanRecover
+               \/ "lose" \in P.k /\ CanLose
                \/ "preset" \in P.k /\ CanPreset)
 Complete == Len(trace) > 0 /\ (~Planned \/ Stuck)
 DumpInv ==
